@@ -64,3 +64,6 @@ func VerifDefaultHandlers() map[uint16]Handler {
 	}
 	return out
 }
+
+// Clear runs packageParse.clear(), as the reader does when the connection ends.
+func (v *VerifParser) Clear() { v.p.clear() }
